@@ -432,6 +432,44 @@ let dispatch (cmd : string) (args : sx list) : sx =
        | Arr a -> out_of_res (Ok (Arr (sort_by val_cmp a)))
        | _ -> unmodelled)
   | "run", _ -> cmd_run args
+  | "cli2", [tree; Str ftext; L argv; L vars; Str stdin; Atom fuel] ->
+      (* the model parses the command line itself (Cli/Args.v) *)
+      let coq_ascii (c : char) : ascii =
+        let n = Char.code c in
+        Ascii (n land 1 <> 0, n land 2 <> 0, n land 4 <> 0, n land 8 <> 0, n land 16 <> 0, n land 32 <> 0, n land 64 <> 0, n land 128 <> 0) in
+      let rec coq_string (s : string) (i : int) : Jaqmodel.string =
+        if i >= String.length s then EmptyString else String (coq_ascii s.[i], coq_string s (i + 1)) in
+      let argv = List.map (function Str a -> coq_string a 0 | _ -> failwith "argv") argv in
+      (match parse_cli argv with
+       | Inr _ -> L [Atom "cli"; Str ""; Atom "2"; Atom "usage-error"]
+       | Inl c ->
+           if c.c_version || c.c_help || c.c_in_place || c.c_from_file || c.c_files <> [] then L [Atom "cli"; Str ""; Atom "-1"; Atom "out-of-model"]
+           else
+           (match opts_of c with
+            | None -> L [Atom "cli"; Str ""; Atom "-1"; Atom "out-of-model"]
+            | Some o ->
+                let names = List.map (function L [Atom n; _] -> "$" ^ n | _ -> failwith "var") vars in
+                let vals = List.map (function L [_; v] -> val_of_sx v | _ -> failwith "var") vars in
+                let pre = get_pre names in
+                let rec ocaml_string (s : Jaqmodel.string) : string =
+                  (match s with
+                   | EmptyString -> ""
+                   | String (Ascii (b0, b1, b2, b3, b4, b5, b6, b7), r) ->
+                       let bit b k = if b then k else 0 in
+                       String.make 1 (Char.chr (bit b0 1 + bit b1 2 + bit b2 4 + bit b3 8 + bit b4 16 + bit b5 32 + bit b6 64 + bit b7 128)) ^ ocaml_string r) in
+                let tree = (match c.c_filter with
+                            | None -> Some PId                                   (* no filter given: identity *)
+                            | Some f -> if ocaml_string f = ftext then (match tree with Atom "none" -> None | _ -> Some (pterm_of tree))
+                                        else failwith "filter-mismatch") in
+                (match tree with
+                 | None -> L [Atom "cli"; Str ""; Atom "3"; Atom "compile-error"]
+                 | Some tree ->
+                let prog = compile_main !natives (List.map bytes_of_string names) pre tree in
+                let (out, oc) = run_cli (nat_of_int (int_of_string fuel)) o prog vals (bytes_of_string stdin) in
+                let code = int_of_z (exit_code o oc) in
+                L [Atom "cli"; Str (string_of_bytes out); Atom (string_of_int code);
+                   Atom (match oc with Finished _ -> "finished" | RunError -> "run-error" | Halted _ -> "halted" | InputError _ -> "input-error"
+                                     | WriteError -> "write-error" | OutOfModel -> "out-of-model")])))
   | "cli", [tree; L optl; L vars; Str stdin; Atom fuel] ->
       let has a = List.mem (Atom a) optl in
       let indent = (match List.find_opt (function L [Atom "indent"; _] -> true | _ -> false) optl with
